@@ -20,7 +20,8 @@ func init() {
 		Explanation: "C35.a TAINT: in every module function statically reachable from cluster.Service.handleConn and tcp.Mux.handleConn, a length decoded from received bytes (encoding/binary UintN) is used — other than in comparisons — only on edges where it is below a constant bound, and never as the size of a make() unless that bound is ≤ 1 MiB (so memory grows with bytes received). " +
 			"C35.b DOM: in handleConn no field of a command payload (result of Command.GetXRequest()) is read or written on a path where the payload's non-nil test has not succeeded, including the fall-through after an error header (path-sensitive for the resp.Error flag). " +
 			"C35.c DOM/PAIR: tcp.Mux.handleConn hands a connection to a listener only when the handler looked up from the header byte is non-nil, and every exit without a hand-off closes the connection; a command that fails to decode returns (closing the connection). State change without permission is C18.b. " +
-			"C35.d DOM: serving a frame retains nothing beyond the frame — cluster.Service.handleConn (with its closures and single-caller helpers) starts no goroutine, performs no unconditional channel send, and every send that hands a decoded value to another goroutine is an arm of a select with a default.",
+			"C35.d DOM: serving a frame retains nothing beyond the frame — cluster.Service.handleConn (with its closures and single-caller helpers) starts no goroutine, performs no unconditional channel send, and every send that hands a decoded value to another goroutine is an arm of a select with a default. " +
+			"C35.e DOM: tcp.Mux.Serve retries an Accept error that reports Temporary() (descriptor exhaustion, aborted connections): from the true edge of that test Accept is reached again before any return.",
 		NotCovered: []string{"absence of panics in general below the handlers (SQLite, protobuf, raft transport)", "memory growth measurements", "the raft transport's own decoding (hashicorp/raft, trusted)"},
 		Run:        runC35,
 	})
@@ -100,6 +101,7 @@ func runC35(c *core.Ctx) {
 
 	c35payload(c, svc)
 	c35d(c, svc)
+	c35e(c)
 	c35mux(c, mux)
 	c35decode(c, svc)
 }
